@@ -19,6 +19,13 @@ NA = {
 }
 
 CHECKS = {
+    "C18": dict(
+        category="exploration",
+        text="Only non_linear_correlations is addressed (weak fit, stated as such): its single source of nondeterminism, the repeated train_test_split on the process-global RNG with no seed argument, is replaced at the module seam by a simulator-owned splitter that returns legal half/half splits chosen adversarially (sorted, reverse-sorted, first/last halves, interleaved, seeded random) or delegates to the real function under a simulator seed; the taped splits are replayed for the DataFrame call and for a call in which a fit/predict site of the peer model fails. The r2_score_comparable sentence is a pure function and is NOT covered.",
+        design_ref="DESIGN.md §4 C18",
+        note="Trusted: the split reaches the function only through the module-level name train_test_split; 'its array' is the frame's own array (same memory layout); unit diagonal asserted only for columns that cannot be constant in a training half.",
+        technique="deterministic simulation: owned split seam (adversarial + pinned, taped), fault plan on the peer model",
+    ),
     "C13": dict(
         category="exploration",
         text="The permutation drawn by PermutationReciprocalTransformer / TransformedTargetClassifier2('permute') is environment entropy (numpy.random.permutation, no seed on that path): the entropy seam forces it to every one of the k! permutations in turn for k <= 4 (quick) / 5 (thorough) -- exhaustive over permutations for those sizes -- and draws adversarially for 6 <= k <= 9, over sampled label sets (int, arbitrary int, str, float with NaN), data and exactly equivariant learners; oracles: transformer round trip, original labels, agreement with the plain classifier where its decision is not a tie, classes_[j] labels column j. The six function names are checked with recording peers; that part has no schedule/fault/entropy dimension and is reported separately.",
